@@ -1329,6 +1329,9 @@ func (m *RedisMessage) AsFtSearch() (total int64, docs []FtSearchDoc, err error)
 		return 0, nil, err
 	}
 	if m.IsMap() {
+		if len(m.values())%2 != 0 {
+			return 0, nil, errOddMap(m.typ)
+		}
 		for i := 0; i < len(m.values()); i += 2 {
 			switch m.values()[i].string() {
 			case "total_results":
@@ -1337,6 +1340,9 @@ func (m *RedisMessage) AsFtSearch() (total int64, docs []FtSearchDoc, err error)
 				records := m.values()[i+1].values()
 				docs = make([]FtSearchDoc, len(records))
 				for d, record := range records {
+					if len(record.values())%2 != 0 {
+						return 0, nil, errOddMap(record.typ)
+					}
 					for j := 0; j < len(record.values()); j += 2 {
 						switch record.values()[j].string() {
 						case "id":
@@ -1380,11 +1386,15 @@ func (m *RedisMessage) AsFtSearch() (total int64, docs []FtSearchDoc, err error)
 		for i := 1; i < len(m.values()); i++ {
 			doc := FtSearchDoc{Key: m.values()[i].string()}
 			if wscore {
-				i++
+				if i++; i == len(m.values()) {
+					return 0, nil, errIncompleteFtSearch(m.typ)
+				}
 				doc.Score, _ = strconv.ParseFloat(m.values()[i].string(), 64)
 			}
 			if wattrs {
-				i++
+				if i++; i == len(m.values()) {
+					return 0, nil, errIncompleteFtSearch(m.typ)
+				}
 				doc.Doc, _ = m.values()[i].AsStrMap()
 			}
 			docs = append(docs, doc)
@@ -1395,11 +1405,22 @@ func (m *RedisMessage) AsFtSearch() (total int64, docs []FtSearchDoc, err error)
 	return 0, nil, fmt.Errorf("%w: redis message type %s is not a FT.SEARCH response", errParse, typeNames[typ])
 }
 
+func errOddMap(typ byte) error {
+	return fmt.Errorf("%w: redis message type %s has an odd number of elements", errParse, typeNames[typ])
+}
+
+func errIncompleteFtSearch(typ byte) error {
+	return fmt.Errorf("%w: redis message type %s is not a complete FT.SEARCH response", errParse, typeNames[typ])
+}
+
 func (m *RedisMessage) AsFtAggregate() (total int64, docs []map[string]string, err error) {
 	if err = m.Error(); err != nil {
 		return 0, nil, err
 	}
 	if m.IsMap() {
+		if len(m.values())%2 != 0 {
+			return 0, nil, errOddMap(m.typ)
+		}
 		for i := 0; i < len(m.values()); i += 2 {
 			switch m.values()[i].string() {
 			case "total_results":
@@ -1408,6 +1429,9 @@ func (m *RedisMessage) AsFtAggregate() (total int64, docs []map[string]string, e
 				records := m.values()[i+1].values()
 				docs = make([]map[string]string, len(records))
 				for d, record := range records {
+					if len(record.values())%2 != 0 {
+						return 0, nil, errOddMap(record.typ)
+					}
 					for j := 0; j < len(record.values()); j += 2 {
 						switch record.values()[j].string() {
 						case "extra_attributes":
